@@ -78,6 +78,7 @@ type caseWriter struct {
 	distinct map[string]struct{}
 	nontriv  int
 	samples  []string
+	long     []string
 	hist     map[string]int
 	extra    map[string]interface{}
 	written  int
@@ -116,6 +117,9 @@ func (c *caseWriter) emit(key string, nontrivial bool, fields ...string) {
 		}
 		if len(c.samples) < 5 && nontrivial && len(line) < 600 {
 			c.samples = append(c.samples, line)
+		} else if len(c.long) < 2 && nontrivial {
+			// long cases are sampled truncated so that the evidence always shows what a case looks like
+			c.long = append(c.long, line[:min(len(line), 900)]+" …[truncated]")
 		}
 	}
 }
@@ -135,6 +139,12 @@ func (c *caseWriter) writeStats(path string) {
 	dist := map[string]int{}
 	for _, k := range keys {
 		dist[k] = c.hist[k]
+	}
+	if len(c.samples) == 0 {
+		c.samples = append(c.samples, c.long...)
+	}
+	if c.samples == nil {
+		c.samples = []string{}
 	}
 	out := map[string]interface{}{
 		"evaluations":         c.written,
